@@ -859,11 +859,16 @@ Section Render.
   Definition render_math_block (t : tok) (ks : list rt) : prog :=
     new_text_elem k_math_block math_block_attrs (content t) (fun n => Append n Done).
 
+  (* nodes.target('', '', ids=[...]): an object created with ids that no registry handed out *)
+  Definition preset_ids (ot : N) (l : list str) : fop unit := fun f => put_rec ot (mkNrec n_target [] [] l None) f.
+  (* self._generated_labels += 1 *)
+  Definition next_uuid : fop N := fun f => Good (uuidc f + 1, set_uuidc f (uuidc f + 1)).
+
   (* SphinxRenderer.add_math_target: equation target with a preset id *)
   Definition add_math_target (label : str) (k : node -> prog) : prog :=
     ot <- alloc ;
     let node_id := o_make_id OR (v_equation_ ++ label) in
-    _ <- (fun f => put_rec ot (mkNrec n_target [] [] [node_id] None) f) ;
+    _ <- preset_ids ot [node_id] ;
     _ <- set_id_nomsg (o_make_id OR) (c_auto_id_prefix C) ot n_target ;
     k (Elem ot n_target [] []).
 
@@ -886,7 +891,7 @@ Section Render.
         if is_sphinx then
           if unnumbered then new_text_elem k_math_block a0 (content t) (fun n => Append n Done)
           else
-            c <- (fun f => Good (uuidc f + 1, set_uuidc f (uuidc f + 1))) ;
+            c <- next_uuid ;
             let label := v_uuid_ ++ show c in
             new_text_elem k_math_block ((a_label, [label]) :: a0) (content t) (fun n =>
               add_math_target label (fun tgt => Append tgt (Append n Done)))
@@ -920,11 +925,13 @@ Section Render.
                       | None => false
                       end) (footnotes f ++ autofootnotes f).
 
+  Definition is_footnote_defined (target : str) : fop bool := fun f => Good (footnote_defined target f, f).
+
   Definition render_footnote_reference (t : tok) (ks : list rt) : prog :=
     match assoc a_label (meta t) with
     | None => Fail (EPy KeyError)
     | Some target =>
-        dup <- (fun f => Good (footnote_defined target f, f)) ;
+        dup <- is_footnote_defined target ;
         if (dup : bool) then (w <- create_warning w_ref_footnote ; Append w Done)
         else
           o <- alloc ;
@@ -1124,7 +1131,13 @@ Section Render.
 End Render.
 
 (* merge the side table (names, dupnames, ids) into the tree: what the Python objects show *)
-Definition deco_attrs (objs : list (N * nrec)) (o : N) (a : nattrs) : nattrs :=
+(* names, dupnames and ids of a node are the ones its object carries (the side table), whatever the attribute
+   list built by the renderer says *)
+Definition strip_key (k : str) (a : nattrs) : nattrs := filter (fun kv => negb (str_eqb (fst kv) k)) a.
+Definition strip_reg (a : nattrs) : nattrs := strip_key a_ids (strip_key a_dupnames (strip_key a_names a)).
+
+Definition deco_attrs (objs : list (N * nrec)) (o : N) (a0 : nattrs) : nattrs :=
+  let a := strip_reg a0 in
   match nassoc o objs with
   | None => a
   | Some r =>
